@@ -228,7 +228,10 @@ impl Interp {
         // is applied to, because the compiler's wrong narrowing after it also mis-types the
         // branch guard that non-nil arguments are dispatched on.
         let nil_test = matches!(p, Match::Tuple(t) if t.name.is_none() && t.fields.is_empty());
-        if nil_test || (is_nil(v) && matches!(p, Match::Identifier(..) | Match::Placeholder)) {
+        // `* = r` binds the names of every variant of r's static type; the ones the value's own
+        // variant lacks hold nil (and are narrowed to non-nil like any other new binding).
+        let star = matches!(p, Match::Star(_));
+        if nil_test || star || (is_nil(v) && matches!(p, Match::Identifier(..) | Match::Placeholder)) {
             self.events.insert("nil-accepted");
         }
         let mut binds: Vec<(String, V)> = vec![];
